@@ -21,6 +21,7 @@ type c03Cell struct {
 	flavour  int // 0 failover/sharded 1 failover/syncmap 2 failoverOf/shardedOf 3 failover/ShardedMapOf[any]
 	offset   int // 0..2 clock offset variant
 	syncRead bool
+	nilPre   bool // the cached value is a nil interface (untyped API only)
 }
 
 var c03Cells []c03Cell
@@ -44,7 +45,11 @@ func init() {
 												continue
 											}
 
-											c03Cells = append(c03Cells, c03Cell{state, failHit, syncUpd, failHard, maxStale, failTTL, buildErr, flavour, offset, syncRead})
+											c03Cells = append(c03Cells, c03Cell{state, failHit, syncUpd, failHard, maxStale, failTTL, buildErr, flavour, offset, syncRead, false})
+
+											if state != "absent" && flavour != 2 && offset == 1 {
+												c03Cells = append(c03Cells, c03Cell{state, failHit, syncUpd, failHard, maxStale, failTTL, buildErr, flavour, offset, syncRead, true})
+											}
 										}
 									}
 								}
@@ -102,7 +107,7 @@ func genC03(r *rand.Rand, run int, tier string) *Scenario {
 	fo.BackendJitter = pick(r, -1.0, 0)
 	fo.BackendTTLNs = 600 * sec
 
-	in := FOInit{Key: 0, FailAgeNs: -1}
+	in := FOInit{Key: 0, FailAgeNs: -1, NilValue: c.nilPre}
 
 	switch c.state {
 	case "absent":
@@ -139,6 +144,10 @@ func (r *foRun) c03Cell() string {
 		} else {
 			state = "staleok"
 		}
+	}
+
+	if in.NilValue {
+		state += "(nil value)"
 	}
 
 	return fmt.Sprintf("%s failCached=%v syncUpdate=%v failHard=%v maxStaleness=%v failedTTL=%d buildErr=%v api=%s",
@@ -182,7 +191,13 @@ func (r *foRun) oracleC03() {
 		b = r.builds[0]
 	}
 
-	isVal := func(t Tok) bool { return o.err == nil && o.val == interface{}(t) }
+	isVal := func(t Tok) bool {
+		if in.NilValue && t == pre {
+			return o.err == nil && o.val == nil
+		}
+
+		return o.err == nil && o.val == interface{}(t)
+	}
 
 	switch {
 	case state == "fresh":
@@ -225,6 +240,12 @@ func (r *foRun) oracleC03() {
 			if o.err == nil || !errors.Is(o.err, error(b.err)) {
 				bad("sync-build-err", "the builder error must be returned, got (%v, %v)", o.val, o.err)
 			}
+		case in.NilValue:
+			// "unless ... none exists": whether a cached nil counts as a value to fall back to is
+			// not stated; the builder error or the cached nil are both accepted
+			if !isVal(pre) && !(o.err != nil && errors.Is(o.err, error(b.err))) {
+				bad("sync-build-err-stale", "build failed: the builder error or the cached nil value must be returned, got (%v, %v)", o.val, o.err)
+			}
 		default:
 			if !isVal(pre) {
 				bad("sync-build-err-stale", "build failed, FailHard is off and a previously cached value exists: it must be served, got (%v, %v)", o.val, o.err)
@@ -261,7 +282,11 @@ func (r *foRun) oracleC03() {
 			bad("stored", "after a successful build the backend must hold the new value, read gives (%v, %v)", v, err)
 		}
 	case nb == 1 && buildErr && state == "staleok":
-		if err != nil || v != interface{}(pre) {
+		if in.NilValue {
+			if err != nil || v != nil {
+				bad("stored", "after a failed build the re-stored stale nil value must still be readable, read gives (%v, %v)", v, err)
+			}
+		} else if err != nil || v != interface{}(pre) {
 			bad("stored", "after a failed build the re-stored stale value must still be readable, read gives (%v, %v)", v, err)
 		}
 
